@@ -104,6 +104,14 @@ class Target:
             self.fw = Forwarder(self.face, self.kind, ['200'], ctx, rng, S)
         return await asyncio.wait_for(self.app.register(form) if self.kind == 'v2' else self.app.register(form, None), 30)
 
+    async def unregister_bare(self, form, S, ctx, rng):
+        """Current front-end: unregister(prefix) only withdraws the route at the forwarder; the handler stays attached (Interests
+        may still arrive through a shorter registered prefix or after a later register())."""
+        from .c17 import Forwarder
+        if getattr(self, 'fw', None) is None:
+            self.fw = Forwarder(self.face, self.kind, ['200'], ctx, rng, S)
+        return await asyncio.wait_for(self.app.unregister(form), 30)
+
     async def detach_by_unregister(self, form, S, ctx, rng, answer):
         """Legacy front-end: unregister(prefix) withdraws the route AND detaches the handler; the scripted forwarder answers the
         command with 200, an error status, a Nack, rubbish or not at all."""
@@ -241,6 +249,14 @@ def run_history(ctx, rng, kind, ops, label):
                         ctx.event('observation:bare-register-returned-false')
                 except Exception as e:   # noqa
                     res['viol'].append((f'bare-register-raises:{kind}:{type(e).__name__}', f'register() without a handler raised {e!r}', w))
+            elif op[0] == 'unregister-bare':
+                form, fl = form_of(rng, tuple(op[1]))
+                w['form'] = fl
+                try:
+                    await T.unregister_bare(form, S, ctx, rng)
+                    ctx.event('route-withdrawn-handler-kept' if tuple(op[1]) in attached else 'route-withdrawn-without-handler')
+                except Exception as e:   # noqa
+                    res['viol'].append((f'bare-unregister-raises:{kind}:{type(e).__name__}', f'unregister() raised {e!r}', w))
             elif op[0] == 'reconnect':
                 # the current front-end documents that handler associations survive the end of a connection; the legacy
                 # one clears its table by design, which the statement does not speak about: only v2 histories reconnect
@@ -540,7 +556,10 @@ def run(ctx):
             elif k < 0.40 and kind == 'v2':
                 ops.append(('reconnect', ()))
             elif k < 0.44 and kind in ('v1', 'v2') and i % 2:
-                ops.append(('register-bare', rng.choice([p for p in PREFIXES if p])))
+                if kind == 'v2' and rng.random() < 0.5:
+                    ops.append(('unregister-bare', rng.choice([p for p in PREFIXES if p])))
+                else:
+                    ops.append(('register-bare', rng.choice([p for p in PREFIXES if p])))
             elif k < 0.55:
                 if kind == 'v1' and i % 2 and rng.random() < 0.5:
                     ops.append(('detach', rng.choice(pool_p), rng.choice(['200', '200', '404', 'nack', 'silence', 'garbage', 'bad-signature'])))
@@ -559,11 +578,19 @@ def run(ctx):
                 ops += [('interest', n) for n in (PREFIXES[2], PREFIXES[3], PREFIXES[1], INT_NAMES[7], PREFIXES[7])]
                 ops += [('attach', PREFIXES[2]), ('interest', PREFIXES[2]), ('interest', PREFIXES[3])]
                 run_history(ctx, rng, 'v1', ops, 'unregister-template')
+        # current front-end: withdrawing the route of a prefix leaves its handler attached
+        for others in ((1, 3), (1,), (3,), ()):
+            ops = [('attach', PREFIXES[j]) for j in others + (2,)]
+            rng.shuffle(ops)
+            ops += [('register-bare', PREFIXES[2]), ('interest', PREFIXES[2]), ('unregister-bare', PREFIXES[2])]
+            ops += [('interest', n) for n in (PREFIXES[2], PREFIXES[3], PREFIXES[1], INT_NAMES[7], PREFIXES[7])]
+            ops += [('attach', PREFIXES[2]), ('interest', PREFIXES[2]), ('detach', PREFIXES[2]), ('interest', PREFIXES[2]), ('interest', PREFIXES[3])]
+            run_history(ctx, rng, 'v2', ops, 'unregister-keeps-handler-template')
     check_reply(ctx, rng)
     for k in ('attach', 'detach', 'duplicate-attach', 'interest-hit', 'interest-miss', 'reply-sent', 'reply-late', 'attach-with-delivery-options',
               'reconnect-with-handlers-attached', 'register-without-handler-on-free-prefix', 'duplicate-route-declaration',
               'reply-from-blocking-handler', 'interest-parameterised-digest-at-middle', 'detach-by-unregister-command-succeeded',
-              'detach-by-unregister-command-failed', 'interest-with-can-be-prefix', 'interest-with-hop-limit-0'):
+              'detach-by-unregister-command-failed', 'interest-with-can-be-prefix', 'interest-with-hop-limit-0', 'route-withdrawn-handler-kept'):
         ctx.need_event(k)
     ctx.assumptions = ['detaching a never-attached prefix and handler exceptions are outside the statement',
                        'the reply clause is judged on the current front-end (the legacy one has no reply callback)']
